@@ -522,6 +522,13 @@ func (rl *Shell) transposeWords() {
 		transposeWith, toTranspose = toTranspose, transposeWith
 	}
 
+	// There might be no two words following each other on the line
+	// (empty line, single word, or no word where we moved to).
+	if wbpos < 0 || wepos < wbpos || tbpos < wepos || tepos < tbpos || tepos > rl.line.Len() {
+		rl.cursor.Set(startPos)
+		return
+	}
+
 	// Assemble the newline
 	begin := string((*rl.line)[:wbpos])
 	newLine := append([]rune(begin), []rune(toTranspose)...)
@@ -558,6 +565,13 @@ func (rl *Shell) shellTransposeWords() {
 	// We might be on the first word of the line,
 	// in which case we don't do anything.
 	if wepos > tbpos {
+		rl.cursor.Set(startPos)
+		return
+	}
+
+	// There might be no two words following each other on the line
+	// (empty line, single word, or no word where we moved to).
+	if wbpos < 0 || wepos < wbpos || tbpos < wepos || tepos < tbpos || tepos > rl.line.Len() {
 		rl.cursor.Set(startPos)
 		return
 	}
